@@ -1,5 +1,5 @@
 (* C01 — stream fidelity: every input JSON value comes out once, in order, unchanged. *)
-From Jawk Require Import Base F64 Json Reader JsonParser Stream Render ReaderLemmas ParserProofs.
+From Jawk Require Import Base F64 Json Reader JsonParser Stream Printer Render ReaderLemmas ParserProofs Go GoProofs.
 
 (* for every sequence of spelling trees of the RFC 8259 grammar (any insignificant whitespace, any escape
    spelling incl. per-digit hex case, any number spelling incl. upper-case exponents and signs, distinct
@@ -20,6 +20,16 @@ Theorem C01_value : forall fuel t v (w tl : list byte) r,
   exists r', parse_value fuel r = (POk v, r') /\ view r' = tl /\ rd_ok r'.
 Proof. exact parse_value_render. Qed.
 Print Assumptions C01_value.
+
+(* the whole program with no options: exactly one row per value, in input order, each row the one-line text
+   of the value (which C02 shows denotes that value), and the run succeeds *)
+Theorem C01_rows : forall (lead : ws) (l : list (sjson * ws)) (vs : list json),
+  stream_wf lead l ->
+  Forall2 (fun tw v => value_of (fst tw) = Some v) l vs ->
+  let g := go default_cfg [(None, map EB (lead ++ render_stream l))] true in
+  g_result g = GOk /\ g_events g = map (fun v => OOut (print_json OneLine false v ++ [10%N])) vs.
+Proof. exact go_default_rows. Qed.
+Print Assumptions C01_rows.
 
 (* non-vacuity: 1E2 "é" [ true ,{"a":-0.5e+1}] is a well-formed stream *)
 Example C01_example :
